@@ -121,7 +121,9 @@ MonUpdate ==
     /\ Check("C02", "Authentic", AuthenticStep(stored, stored', la))
     /\ Check("C03", "RefusalNoEffect", RefusalNoEffectStep(stored, stored', la) /\ (la.v # "Accept" => Ev.unchanged))
     /\ Check("C04", "AcceptShape", AcceptShapeStep(stored, stored', la) /\ (la.v = "Accept" => ShapeOK(Ev.shape) /\ Ev.retcp = stored'[l]))
-    /\ (honest /\ la.v # "Accept" =>
+    \* (a step during which a storage failure was injected, or whose caller went away, may be refused: C08 is about what the witness does
+    \*  with a working store; the probes that FOLLOW such a step are judged)
+    /\ (honest /\ la.v # "Accept" /\ ~(Ev.frun /\ Ev.fired # <<>>) =>
            Say("FAIL", "C08", "HonestProgress",
                IF st # None /\ st.n = 0 /\ la.req.n > 0 /\ la.v = "InvalidProof" THEN "zero-size-wedge"
                ELSE IF st # None /\ st.lines > MaxLines THEN "stored-note-over-signature-limit"
